@@ -52,3 +52,5 @@ require (
 	gopkg.in/yaml.v3 v3.0.1 // indirect
 )
 
+
+require github.com/anishathalye/porcupine v1.3.0
